@@ -21,3 +21,20 @@ package document
 //@ spec tcMarAbove(b *TableCellMarginsCell, lo int) bool = above(b.Top, lo) && above(b.Left, lo) && above(b.Bottom, lo) && above(b.Right, lo)
 //@ spec tcMarLive(b *TableCellMarginsCell) bool = live(b.Top) && live(b.Left) && live(b.Bottom) && live(b.Right)
 //@ spec tcMarApart(b *TableCellMarginsCell) bool = (b.Top == nil || (b.Top != b.Left && b.Top != b.Bottom && b.Top != b.Right)) && (b.Left == nil || (b.Left != b.Bottom && b.Left != b.Right)) && (b.Bottom == nil || (b.Bottom != b.Right))
+
+// Parts of a cell the C09 ownership predicates speak about: the properties object, the paragraph array, the run array
+// of every paragraph. cellPartsAbove(c, lo): each of them was allocated at or after the allocation counter stood at lo
+// (the arrays exist: the reader makes them even for an empty cell / paragraph); cellPartsLive(c): each is allocated now;
+// cellRunsApart(c): no two paragraphs of the cell share a run array.
+//@ spec cellPartsAbove(c *TableCell, lo int) bool = above(c.Properties, lo) && arr(c.Paragraphs) != 0 && arr(c.Paragraphs) >= lo && (forall k int :: {c.Paragraphs[k]} 0 <= k && k < len(c.Paragraphs) ==> arr(c.Paragraphs[k].Runs) != 0 && arr(c.Paragraphs[k].Runs) >= lo)
+//@ spec cellPartsLive(c *TableCell) bool = live(c.Properties) && arr(c.Paragraphs) < allocBound() && (forall k int :: {c.Paragraphs[k]} 0 <= k && k < len(c.Paragraphs) ==> arr(c.Paragraphs[k].Runs) < allocBound())
+//@ spec cellRunsApart(c *TableCell) bool = forall k1 int, k2 int :: {c.Paragraphs[k1], c.Paragraphs[k2]} 0 <= k1 && k1 < k2 && k2 < len(c.Paragraphs) ==> arr(c.Paragraphs[k1].Runs) != arr(c.Paragraphs[k2].Runs)
+
+// cellsApart(a, b): two cells share neither their properties object nor their paragraph array nor a run array.
+//@ spec cellsApart(a *TableCell, b *TableCell) bool = (a.Properties == nil || a.Properties != b.Properties) && arr(a.Paragraphs) != arr(b.Paragraphs) && (forall k1 int, k2 int :: {a.Paragraphs[k1], b.Paragraphs[k2]} 0 <= k1 && k1 < len(a.Paragraphs) && 0 <= k2 && k2 < len(b.Paragraphs) ==> arr(a.Paragraphs[k1].Runs) != arr(b.Paragraphs[k2].Runs))
+
+// The same one level up: the parts of a row are its properties object, its cell array and the parts of its cells.
+//@ spec rowPartsAbove(r *TableRow, lo int) bool = above(r.Properties, lo) && arr(r.Cells) != 0 && arr(r.Cells) >= lo && (forall c int :: {r.Cells[c]} 0 <= c && c < len(r.Cells) ==> cellPartsAbove(&r.Cells[c], lo))
+//@ spec rowPartsLive(r *TableRow) bool = live(r.Properties) && arr(r.Cells) < allocBound() && (forall c int :: {r.Cells[c]} 0 <= c && c < len(r.Cells) ==> cellPartsLive(&r.Cells[c]))
+//@ spec rowRunsApart(r *TableRow) bool = forall c int :: {r.Cells[c]} 0 <= c && c < len(r.Cells) ==> cellRunsApart(&r.Cells[c])
+//@ spec rowCellsApart(r *TableRow) bool = forall c1 int, c2 int :: {r.Cells[c1], r.Cells[c2]} 0 <= c1 && c1 < c2 && c2 < len(r.Cells) ==> cellsApart(&r.Cells[c1], &r.Cells[c2])
